@@ -20,6 +20,7 @@ type ArMember struct {
 	BlankU    bool   `json:"blankUid,omitempty"`
 	BlankG    bool   `json:"blankGid,omitempty"`
 	BlankMode bool   `json:"blankMode,omitempty"`
+	BlankSize bool   `json:"blankSize,omitempty"` // only honoured for an empty member: a blank column reads as 0
 	Data      []byte `json:"data"`
 }
 
@@ -48,7 +49,7 @@ func arHeader(m ArMember) []byte {
 		mode = ""
 	}
 	h := padRight(name, 16) + padRight(num(m.MTime, m.BlankM), 12) + padRight(num(m.UID, m.BlankU), 6) + padRight(num(m.GID, m.BlankG), 6) +
-		padRight(mode, 8) + padRight(strconv.Itoa(len(m.Data)), 10) + "`\n"
+		padRight(mode, 8) + padRight(num(int64(len(m.Data)), m.BlankSize && len(m.Data) == 0), 10) + "`\n"
 	if len(h) != 60 {
 		panic(fmt.Sprintf("HARNESS: ar header of %d bytes: %q", len(h), h))
 	}
@@ -140,5 +141,6 @@ func genArMember(t *rapid.T, label string) ArMember {
 	m.BlankG = rapid.IntRange(0, 5).Draw(t, label+"bg") == 0
 	m.BlankMode = rapid.IntRange(0, 5).Draw(t, label+"bmode") == 0
 	m.Data = genArData(t, label+"data")
+	m.BlankSize = len(m.Data) == 0 && rapid.Bool().Draw(t, label+"bsize")
 	return m
 }
